@@ -99,6 +99,9 @@ def judgeCounts (n : Option Nat) (impl : String) : String × String :=
           else if r ≠ n then "viol:C03:rcode"
           -- responses that came later than the request deadline (6 s) plus slack; absent = not measured
           else if (kvNat it "late").getD 0 ≠ 0 then "viol:C03:late-response"
+          -- SERVFAIL answers with the query's own question (a failed upstream exchange: counted as own by the
+          -- harness, legitimate one by one) must stay the exception when the upstream is healthy
+          else if (kvNat it "servfail").getD 0 * 10 > n then "viol:C03:servfail-with-healthy-upstream"
           else "ok"
         | _, _, _, _, _ => "unparsed"
     (out, v)
